@@ -3,8 +3,10 @@
 Exhaustive enumeration (engine E1): (a) every terrain over a small height alphabet on small grids x every
 observer cell (x a product of configurations on the smallest grids); (b) deviation-bounded larger grids: flat
 base, every placement of <= k raised / lowered cells x every observer cell.  Every non-square shape family occurs
-tall (H > W) as well as wide: rows and columns play different roles in the sweep.  Every call of the public
-`xrspatial.viewshed` is compared cell by cell with the O(n^2) reference evaluation in oracles/viewshed.py."""
+tall (H > W) as well as wide: rows and columns play different roles in the sweep; (c) observer positions OFF the cell
+centre: the observer is an (x, y) coordinate pair, and every position inside a cell's footprint is that cell's observer.
+Every call of the public `xrspatial.viewshed` is compared cell by cell with the O(n^2) reference evaluation in
+oracles/viewshed.py."""
 from functools import lru_cache
 from math import comb
 
@@ -21,7 +23,11 @@ LEVEL = "model_checking"
 RULE = ("case = (terrain, observer cell, configuration); rank = mixed-radix (terrain rank, observer row-major, "
         "configuration), terrain rank 0 = flat.  'full' spaces enumerate every raster of the shape over the alphabet; "
         "'dev' spaces enumerate a flat 0 base with every placement of 0..k deviating cells x every assignment of the "
-        "listed heights.  One implementation call per case, observer given as the x/y coordinates of the cell centre.  "
+        "listed heights.  One implementation call per case, observer given as the x/y coordinates of the cell centre; 'offset' "
+        "spaces: observer = (cell, displacement): the coordinates of the cell centre displaced by (fr, fc) cell sizes along "
+        "the row / column axis, fr, fc in {0, +-0.3, +-0.49} not both 0, every combination that stays inside the "
+        "coordinate range of the raster - the reference is evaluated for the cell whose centre is nearest (the cell the "
+        "observer stands in), so the result must be that of the centred observer of that cell and the cell holds 180.  "
         "validated (out.ok) counts CELLS whose state (visible with its vertical angle / hidden = -1 / observer = 180) "
         "the reference predicts definitely and that were compared; tie_skipped counts cells left to the tie rule "
         "(for those only 'value is -1 or the vertical angle' is asserted).  A case is non-trivial when the "
@@ -43,6 +49,10 @@ ASSUMPTIONS = [
     "arguments with an integer raster trigger a second ~25 s numba specialisation per worker and are not explored",
     "target_elev >= 0 only (quantifier of the property); coordinates are evenly spaced, x ascending, y ascending or "
     "descending; NumPy backend only (CuPy / RTX paths need a GPU)",
+    "observer positions off the cell centre: displacements of 0.3 and 0.49 cell sizes on either side of the centre along "
+    "either axis (far from the half-way point between two centres, whose owner the statement leaves open); positions "
+    "outside [first, last] cell-centre coordinate raise ValueError by design and are not generated, so a border cell is "
+    "only displaced inwards along the axis it borders",
     "terrains with many distinct heights on grids larger than 4x4 are reached only through <= 2 (thorough: <= 3 on "
     "5x5) deviations from a flat base",
     "two cells at exactly the same distance from the observer with overlapping angular spans do not exist for offsets "
@@ -59,7 +69,10 @@ PRODUCT = [dict(oe=oe, te=te, cell=cell, desc=desc, dtype=dt)
            for oe in (0.0, 0.5, 1.0, -1.0) for te in (0.0, 1.0)
            for cell in ((1.0, 1.0), (2.0, 1.0), (0.5, 1.5)) for desc in (False, True) for dt in ("i4", "f8")]
 
-# (name, shape, ("full", alphabet) | ("dev", heights, kmax), configurations)
+# observer displacement from the cell centre, in cell sizes along the row axis / the column axis
+OFFSETS = (-0.49, -0.3, 0.0, 0.3, 0.49)
+
+# (name, shape, ("full", alphabet) | ("dev", heights, kmax), configurations[, "offset" = displaced observers])
 SPACES = {
     "quick": [
         ("full_3x3_012_A", (3, 3), ("full", (0, 1, 2)), [A]),
@@ -75,6 +88,11 @@ SPACES = {
         ("dev_7x7_k2_A", (7, 7), ("dev", (-2, 3), 2), [A]),
         ("dev_6x4_k2_B", (6, 4), ("dev", (-2, 3), 2), [B]),
         ("dev_4x6_k2_C", (4, 6), ("dev", (-2, 3), 2), [C]),
+        # observer coordinates off the cell centre (3x3: corner, edge and interior cells; y ascending in A, descending in B)
+        # (the observer's cell is located before any terrain is looked at: <= 2 deviations from flat are terrain enough)
+        ("offset_dev_3x3_k2_AB", (3, 3), ("dev", (-2, 3), 2), [A, B], "offset"),
+        ("offset_2x3_02_C", (2, 3), ("full", (0, 2)), [C], "offset"),
+        ("offset_3x2_02_C", (3, 2), ("full", (0, 2)), [C], "offset"),
     ],
     "thorough": [
         ("full_3x3_012_A", (3, 3), ("full", (0, 1, 2)), [A]),
@@ -98,8 +116,13 @@ SPACES = {
         ("dev_8x8_k2_B", (8, 8), ("dev", (-2, 1, 3), 2), [B]),
         ("dev_9x9_k2_A", (9, 9), ("dev", (-2, 3), 2), [A]),
         ("dev_5x5_k3_C", (5, 5), ("dev", (-2, 3), 3), [C]),
+        ("offset_3x3_02_ABC", (3, 3), ("full", (0, 2)), [A, B, C], "offset"),
+        ("offset_2x3_02_ABC", (2, 3), ("full", (0, 2)), [A, B, C], "offset"),
+        ("offset_3x2_02_ABC", (3, 2), ("full", (0, 2)), [A, B, C], "offset"),
+        ("offset_dev_4x5_k2_B", (4, 5), ("dev", (-2, 3), 2), [B], "offset"),
     ],
 }
+SPACES = {t: [e if len(e) == 5 else e + ("centre",) for e in sp] for t, sp in SPACES.items()}
 
 
 def _cfg_json(c):
@@ -108,14 +131,17 @@ def _cfg_json(c):
                 optional_arguments="omitted" if c.get("defaults") else "passed as floats")
 
 
-BOUNDS = {t: {"spaces": [dict(name=n, shape=list(s), observers="every cell",
+BOUNDS = {t: {"spaces": [dict(name=n, shape=list(s),
+                              observers=("every cell, coordinates of the cell centre" if o == "centre" else
+                                         "every cell x every displacement (fr, fc) != (0, 0) of the centre coordinates, fr, fc in "
+                                         "%r cell sizes, that stays inside the coordinate range" % (OFFSETS,)),
                               terrains=(dict(kind="every raster", alphabet=list(k[1])) if k[0] == "full" else
                                         dict(kind="flat 0 base + every placement of 0..%d deviating cells" % k[2],
                                              heights=list(k[1]))),
                               configurations=("product observer_elev{0,.5,1,-1} x target_elev{0,1} x cell{(1,1),(2,1),"
                                               "(.5,1.5)} x y{asc,desc} x dtype{int32,float64}" if len(c) == 96
                                               else [_cfg_json(x) for x in c]))
-                         for n, s, k, c in sp]} for t, sp in SPACES.items()}
+                         for n, s, k, c, o in sp]} for t, sp in SPACES.items()}
 
 
 @lru_cache(maxsize=None)
@@ -124,16 +150,22 @@ def _placements(ncells, k):
 
 
 class ViewshedSpace(Space):
-    def __init__(self, name, shape, kind, configs):
+    def __init__(self, name, shape, kind, configs, observers="centre"):
         self.name, self.shape, self.kind, self.configs = name, shape, kind, configs
         n = shape[0] * shape[1]
+        h, w = shape
+        # (row, col, fr, fc): the observer stands in cell (row, col), at its centre displaced by fr / fc cell sizes along
+        # the row / column axis; a displaced position must stay within the centres of the first and last row / column
+        offs = [(0.0, 0.0)] if observers == "centre" else [(fr, fc) for fr in OFFSETS for fc in OFFSETS if (fr, fc) != (0.0, 0.0)]
+        self.observers = [(r, c, fr, fc) for r in range(h) for c in range(w) for fr, fc in offs
+                          if 0 <= r + fr <= h - 1 and 0 <= c + fc <= w - 1]
         if kind[0] == "full":
             self.nterr = len(kind[1]) ** n
         else:
             self.parts = [comb(n, k) * len(kind[1]) ** k for k in range(kind[2] + 1)]
             self.nterr = sum(self.parts)
-        self.radices = [self.nterr, n, len(configs)]
-        self.size = self.nterr * n * len(configs)
+        self.radices = [self.nterr, len(self.observers), len(configs)]
+        self.size = self.nterr * len(self.observers) * len(configs)
 
     # ---- rank -> case ---------------------------------------------------------------------------
     def terrain(self, trank):
@@ -159,11 +191,13 @@ class ViewshedSpace(Space):
     def case(self, rank):
         trank, obs, ci = unrank_product(rank, self.radices)
         a, lit = self.terrain(trank)
-        return a, lit, divmod(obs, self.shape[1]), self.configs[ci]
+        vr, vc, fr, fc = self.observers[obs]
+        return a, lit, (vr, vc), (fr, fc), self.configs[ci]
 
     @staticmethod
-    def key(lit, vr, vc, cfg):
-        return "viewshed|terrain=%s|observer=(%d,%d)|%s" % (lit, vr, vc, ViewshedSpace.cfg_str(cfg))
+    def key(lit, vr, vc, off, cfg):
+        o = "" if off == (0.0, 0.0) else "|observer_offset_cells=(%+g,%+g)" % off
+        return "viewshed|terrain=%s|observer=(%d,%d)%s|%s" % (lit, vr, vc, o, ViewshedSpace.cfg_str(cfg))
 
     @staticmethod
     def cfg_str(c):
@@ -173,8 +207,9 @@ class ViewshedSpace(Space):
             c["oe"], c["te"], c["cell"][0], c["cell"][1], "desc" if c["desc"] else "asc", c["dtype"])
 
     def describe(self, rank):
-        a, lit, (vr, vc), cfg = self.case(rank)
-        return {"terrain": a, "observer_row_col": [vr, vc], "config": _cfg_json(cfg)}
+        a, lit, (vr, vc), off, cfg = self.case(rank)
+        return {"terrain": a, "observer_row_col": [vr, vc], "observer_offset_from_centre_in_cells_row_col": list(off),
+                "config": _cfg_json(cfg)}
 
     # ---- driving the implementation ---------------------------------------------------------------
     def setup(self):
@@ -185,7 +220,7 @@ class ViewshedSpace(Space):
         viewshed(dataarray(z.copy()), x=1.0, y=1.0, observer_elev=1.0, target_elev=0.0)     # JIT warm-up (~25 s)
         line_of_sight(z, 1, 1, 1.0, 0.0, 1.0, 1.0, EPS)
 
-    def call(self, a, vr, vc, cfg):
+    def call(self, a, vr, vc, off, cfg):
         tk = (cfg["cell"], cfg["desc"])
         if tk not in self.templates:        # coordinates built once per geometry; every call gets a new DataArray
             h, w = self.shape
@@ -197,16 +232,19 @@ class ViewshedSpace(Space):
             self.templates[tk] = (dataarray(np.zeros(self.shape), ys, xs), xs, ys)
         tpl, xs, ys = self.templates[tk]
         r = tpl.copy(data=a.astype(cfg["dtype"]))
+        # off = (0, 0): exactly the centre coordinates; otherwise displaced by a fraction of the (signed) coordinate step
+        x = float(xs[vc]) + off[1] * float(xs[1] - xs[0])
+        y = float(ys[vr]) + off[0] * float(ys[1] - ys[0])
         if cfg.get("defaults"):
-            return self.viewshed(r, x=float(xs[vc]), y=float(ys[vr]))
-        return self.viewshed(r, x=float(xs[vc]), y=float(ys[vr]), observer_elev=cfg["oe"], target_elev=cfg["te"])
+            return self.viewshed(r, x=x, y=y)
+        return self.viewshed(r, x=x, y=y, observer_elev=cfg["oe"], target_elev=cfg["te"])
 
     def run(self, lo, hi, out):
         for rank in range(lo, hi):
-            a, lit, (vr, vc), cfg = self.case(rank)
-            key = self.key(lit, vr, vc, cfg)
+            a, lit, (vr, vc), off, cfg = self.case(rank)
+            key = self.key(lit, vr, vc, off, cfg)
             try:
-                o = np.asarray(self.call(a, vr, vc, cfg).values, dtype=np.float64)
+                o = np.asarray(self.call(a, vr, vc, off, cfg).values, dtype=np.float64)
             except Exception as e:  # in-domain input: an exception is a violation
                 out.case(outcome=None, nontrivial=False, calls=1)
                 out.violation(rank, key, "viewshed raised %s: %s" % (type(e).__name__, e), case=self.describe(rank))
@@ -238,9 +276,10 @@ class ViewshedSpace(Space):
                               % (len(cells), "; ".join(cells[:6]), key), case=self.describe(rank), observed=o,
                               expected={"state(1 visible,0 hidden,-1 tie,2 observer)": state, "angle": value})
             elif out.want_sample() and nvis > 0 and nhid > 1:
-                out.sample({"terrain": a, "observer_row_col": [vr, vc], "config": _cfg_json(cfg), "viewshed": o,
+                out.sample({"terrain": a, "observer_row_col": [vr, vc], "observer_offset_cells_row_col": list(off),
+                            "config": _cfg_json(cfg), "viewshed": o,
                             "reference_state": state})
 
 
 def build(tier):
-    return [ViewshedSpace(n, s, k, c) for n, s, k, c in SPACES[tier]]
+    return [ViewshedSpace(n, s, k, c, o) for n, s, k, c, o in SPACES[tier]]
